@@ -100,6 +100,28 @@ let show_bytes (o : n list outcome) : string =
   | Panic -> "PANIC"
   | Hang -> "HANG"
 
+(* a history on any hash.Hash-like state machine: kind p = the previous Sum result as prefix; kind g<k> = prefix with
+   k spare bytes: the heap-level model (C04_Sum_writes_only_spare_capacity) writes in place iff k >= Size *)
+let run_history (stepf : 'st -> op -> 'st * out) (s0 : 'st) (ops : string) : string list =
+  let rec go s last l acc =
+    match l with
+    | [] -> List.rev acc
+    | o :: r ->
+      (match String.split_on_char ':' o with
+       | ["R"] -> let (s', out) = stepf s OpReset in go s' last r (show_out out :: acc)
+       | ["W"; h] -> let (s', out) = stepf s (OpWrite (bytes_of_hex h)) in go s' last r (show_out out :: acc)
+       | ["S"; kind; h] ->
+         let pre = if kind = "p" then last else bytes_of_hex h in
+         let (s', out) = stepf s (OpSum pre) in
+         let last' = (match out with OutSum (Ok b) -> b | _ -> last) in
+         let extra =
+           if String.length kind > 1 && kind.[0] = 'g' then
+             (if int_of_string (String.sub kind 1 (String.length kind - 1)) >= int_of_nat size then "/w1" else "/w0")
+           else "" in
+         go s' last' r ((show_out out ^ extra) :: acc)
+       | _ -> failwith "bad op") in
+  go s0 [] (split_list ops) []
+
 let crash (outs : string list) : string option =
   if List.mem "PANIC" outs then Some "PANIC" else if List.mem "HANG" outs then Some "HANG" else None
 
@@ -133,11 +155,7 @@ let handle (f : string array) : string =
        (match crash outs with Some c -> c | None -> "ok " ^ String.concat "," outs)
      | Err _ -> "err" | Panic -> "PANIC" | Hang -> "HANG")
   | "H" ->
-    let rec go s ops acc =
-      match ops with
-      | [] -> List.rev acc
-      | o :: r -> let (s', out) = step s o in go s' r (show_out out :: acc) in
-    let outs = go init (parse_ops f.(2)) [] in
+    let outs = run_history step init f.(2) in
     (match crash outs with Some c -> c | None -> "ok " ^ String.concat "," outs)
   | "A" ->
     (* white box: the same history; the heap-level model (theorem C04_Write_never_keeps_or_writes_callers_array)
@@ -154,11 +172,7 @@ let handle (f : string array) : string =
   | "N" ->
     (match hmac_New (bytes_of_hex f.(2)) with
      | Ok h ->
-       let rec go h ops acc =
-         match ops with
-         | [] -> List.rev acc
-         | o :: r -> let (h', out) = hmac_step h o in go h' r (show_out out :: acc) in
-       let outs = go h (parse_ops f.(3)) [] in
+       let outs = run_history hmac_step h f.(3) in
        (match crash outs with Some c -> c | None -> "ok " ^ String.concat "," outs)
      | Err _ -> "err" | Panic -> "PANIC" | Hang -> "HANG")
   | "L" ->
